@@ -186,7 +186,7 @@ impl ResolvedRoundingOptions {
 
         // 4. Let resolvedOptions be ? SnapshotOwnProperties(? GetOptionsObject(options), null).
         // 5. Let settings be ? GetDifferenceSettings(operation, resolvedOptions, DATE, « », "day", "day").
-        unit_group.validate_unit(options.largest_unit, None)?;
+        unit_group.validate_unit(options.largest_unit, Some(Unit::Auto))?;
         // 3. If disallowedUnits contains largestUnit, throw a RangeError exception.
         // 4. Let roundingIncrement be ? GetRoundingIncrementOption(options).
         let increment = options.increment.unwrap_or_default();
@@ -374,7 +374,7 @@ impl UnitGroup {
         // TODO: Determine proper handling of Auto.
         match self {
             UnitGroup::Date => match unit {
-                Some(unit) if !unit.is_time_unit() => Ok(()),
+                Some(unit) if unit.is_date_unit() => Ok(()),
                 None => Ok(()),
                 _ if unit == extra_unit => Ok(()),
                 _ => Err(TemporalError::range()
@@ -387,7 +387,11 @@ impl UnitGroup {
                 _ => Err(TemporalError::range()
                     .with_message("Unit was not part of the time unit group.")),
             },
-            UnitGroup::DateTime => Ok(()),
+            UnitGroup::DateTime => match unit {
+                Some(Unit::Auto) if unit != extra_unit => Err(TemporalError::range()
+                    .with_message("Unit was not part of the date-time unit group.")),
+                _ => Ok(()),
+            },
         }
     }
 }
@@ -440,11 +444,10 @@ impl Unit {
         // 4. Assert: unit is one of "millisecond", "microsecond", or "nanosecond".
         // 5. Return 1000.
         let max = match self {
-            Year | Month | Week | Day => return None,
+            Year | Month | Week | Day | Auto => return None,
             Hour => 24,
             Minute | Second => 60,
             Millisecond | Microsecond | Nanosecond => 1000,
-            Auto => unreachable!(),
         };
 
         Some(max)
